@@ -232,7 +232,7 @@ def c20(tier, seed, replay):
 
 
 # --------------------------------------------------------------------------- C05 (composite)
-def ctor_grid(variant, work, binary):
+def ctor_grid(variant, work, binary, prop='C05'):
     """TLC enumerates the constructor grid; the harness runs it; TLC validates every outcome"""
     cfgp = work.path('ctor-%s.cfg' % variant)
     vlib.write_cfg(cfgp, 'Spec', {})
@@ -252,11 +252,12 @@ def ctor_grid(variant, work, binary):
     viols = []
     cur = out
     for attempt in range(30):
-        rej = vlib.tlc_validate('CtorTrace', {}, 'C05', cur, work.dir, 'ctor-tv-' + variant)
+        rej = vlib.tlc_validate('CtorTrace', {}, prop, cur, work.dir, 'ctor-tv-' + variant + prop)
         if rej is None:
             break
         idx, rec = rej
-        viols.append(dict(cmd='ctor', instance='ctor-grid', variant=variant, record=rec, op=rec.get('call'), what='constructor ' + json.dumps(rec.get('call')) + ' -> ' + str(rec.get('outcome'))))
+        viols.append(dict(cmd='ctor', instance='ctor-grid', variant=variant, record=rec, op=rec.get('call'),
+                          what='constructor ' + json.dumps(rec.get('call')) + ' -> ' + str(rec.get('outcome')) + ' order=' + json.dumps(rec.get('order'))))
         nxt = cur + '.c%d' % attempt
         # no jumps in this trace: continue right after the rejected record
         with open(cur) as f, open(nxt, 'w') as g:
@@ -434,9 +435,27 @@ def c14(tier, seed, replay):
         work.cleanup()
 
 
+# --------------------------------------------------------------------------- C16 (composite: caches + TinyLFU)
+def c16(tier, seed, replay):
+    import checks
+    if replay:
+        d = json.load(open(replay))
+        if d.get('kind'):
+            return checks.replay_list('C16', replay)
+        return 2
+    t0 = time.time()
+    parts = []
+    checks.run_list_prop('C16', tier, seed, collect=parts)
+    insts = [dict(i, flags=['--clone'], random=None, extra_ops=None) for i in C11_INST[tier] if not i.get('random_only')]
+    run_simple('C16', tier, seed, 'tinylfu', 'MCTinyLFU', 'TinyLFUTrace', insts, collect=parts)
+    jobs = [j for js, _ in parts for j in js]
+    viols = [v for _, vs in parts for v in vs]
+    return finish_simple('C16', tier, seed, jobs, viols, t0, 'model_checking')
+
+
 def c19_entry(tier, seed, replay):
     import c19
     return c19.c19(tier, seed, replay)
 
 
-CHECKS = {'C11': c11, 'C20': c20, 'C05': c05, 'C12': c12, 'C14': c14, 'C19': c19_entry}
+CHECKS = {'C11': c11, 'C20': c20, 'C05': c05, 'C12': c12, 'C14': c14, 'C16': c16, 'C19': c19_entry}
